@@ -253,8 +253,10 @@ def genCrop (spl : Spl) (slf : Obj) (minindices : Vec) (maxindices : Vec) (const
         (match (match (slf).cls with | .image => (genImageWarpToShape spl slf newshape0 (TObj.translation minbounded0) true (0) "constant" (PyNum.num ((0 : Rat) / 1)) none returntransform) | .masked => (genMaskedWarpToShape spl slf newshape0 (TObj.translation minbounded0) true (0) "constant" (PyNum.num ((0 : Rat) / 1)) none returntransform) | .boolean => (genBooleanWarpToShape spl slf newshape0 (TObj.translation minbounded0) true "constant" (PyNum.num false) none returntransform)) with
         | .error e => (Except.error e)
         | .ok result0 =>
+          let cropped0 := (Ret.obj result0)
           let block0 := (List.map (fun it0 => let p0 := it0; let lo0 := p0.1; let hi0 := p0.2; (lo0, hi0)) (PyIter.iter (vzip (vtrunc minbounded0) (vtrunc maxbounded0))))
-          let result1 := (Ret.setPixels result0 (pixelBlock slf block0))
+          let cropped1 := (setPixelValues cropped0 (pixelBlock slf block0))
+          let result1 := (Ret.withObj result0 cropped1)
           (Except.ok result1))
 
 def genCropToPointcloud (spl : Spl) (slf : Obj) (pointcloud : List Vec) (boundary : Rat) (constraintoboundary : Bool) (returntransform : Bool) : Except PyExc (Ret) :=
@@ -316,17 +318,9 @@ def genRescale (spl : Spl) (slf : Obj) (scale : ScaleArg) (round : String) (orde
         (Except.ok ()))) with
   | .ok t0 =>
     let scale0 := (ScaleArg.toVec scale)
-    let r0 := MenpoModel.Py.forLoop none ((PyIter.iter scale0)) (fun acc0 it0 =>
-        if (acc0).isSome then acc0 else
-        let s0 := it0
-        if (decide (s0 ≤ 0)) then
-          some ((Except.error PyExc.valueErr))
-        else
-          none)
-    match r0 with
-    | some v0 =>
-        v0
-    | none =>
+    if (List.any (PyIter.iter scale0) (fun it0 => let s0 := it0; (decide (s0 ≤ 0)))) then
+      (Except.error PyExc.valueErr)
+    else
       let transform0 := (TObj.nonUniformScale scale0)
       (match (genRoundImageShape (TObj.applyVec transform0 (IVec.toV (shapeOf slf))) round) with
       | .error e => (Except.error e)
@@ -338,17 +332,9 @@ def genRescale (spl : Spl) (slf : Obj) (scale : ScaleArg) (round : String) (orde
   | .error .typeErr =>
     let scale0 := (ScaleArg.rep scale ndims)
     let scale1 := (ScaleArg.toVec scale0)
-    let r0 := MenpoModel.Py.forLoop none ((PyIter.iter scale1)) (fun acc0 it0 =>
-        if (acc0).isSome then acc0 else
-        let s0 := it0
-        if (decide (s0 ≤ 0)) then
-          some ((Except.error PyExc.valueErr))
-        else
-          none)
-    match r0 with
-    | some v0 =>
-        v0
-    | none =>
+    if (List.any (PyIter.iter scale1) (fun it0 => let s0 := it0; (decide (s0 ≤ 0)))) then
+      (Except.error PyExc.valueErr)
+    else
       let transform0 := (TObj.nonUniformScale scale1)
       (match (genRoundImageShape (TObj.applyVec transform0 (IVec.toV (shapeOf slf))) round) with
       | .error e => (Except.error e)
